@@ -428,6 +428,44 @@ func runC06(r *vk.Run) {
 				return
 			}
 			c.Count("documents:json-paths", 1)
+			// field list and path expressions in one stage
+			if len(idKeys) > 0 {
+				key := vk.Pick(rng, idKeys)
+				pth := vk.Pick(rng, paths)
+				if key != "px" {
+					stage := "| json " + key + ", px=" + quoteLogQL(pth.Text)
+					if rng.Bool() {
+						stage = "| json px=" + quoteLogQL(pth.Text) + ", " + key
+					}
+					got, gotLine, msg := c06Eval(c, line, stage, nil)
+					if msg == "" && gotLine != line {
+						msg = "line changed"
+					}
+					if msg == "" {
+						if _, bad := got["__error__"]; bad {
+							msg = "well-formed JSON flagged __error__: " + got["__error_details__"]
+						}
+					}
+					if msg == "" {
+						if m := checkExposed(got, "px", pth.Val); m != "" {
+							msg = "path " + pth.Text + ": " + m
+						} else if m := checkExposed(got, key, doc.Vals[key]); m != "" {
+							msg = m
+						}
+						for k := range got {
+							if k != "app" && k != "msg" && k != "px" && k != key {
+								msg = fmt.Sprintf("non-requested field exposed: %s=%q", k, got[k])
+							}
+						}
+					}
+					if msg != "" {
+						c.Fail("", stage+": "+msg, det(stage, got))
+						return
+					}
+					c.Count("documents:json-mixed", 1)
+					c.Count("fields_asserted", 2)
+				}
+			}
 			if c.Idx < 40 && len(paths) > 3 {
 				c.Sample("json-paths", map[string]any{"line": line, "stage": stage})
 			}
